@@ -178,3 +178,22 @@ Definition flow_legacy (cfg : vcfg) (pc : pcfg) (c : pcase) : option outcome :=
 Definition flow_w3c (cfg : vcfg) (pc : pcfg) (c : pcase) : option outcome :=
   match create_w3c pc (pc_req c) (pc_cx c) (pc_link c) (pc_sel c) with
   | ROk P => Some (verify_w3c cfg (pc_req c) P (pc_cx c)) | _ => None end.
+
+(* the class of honest cases the end-to-end theorem covers, as a decidable predicate: no
+   restrictions, no non-revocation intervals, credentials of non-revocable definitions; any number
+   of credentials, single attributes, groups, predicates, unrevealed and self-attested referents *)
+Definition is_none {A} (o : option A) : bool := match o with None => true | Some _ => false end.
+Definition plain_entry (c : pcase) (p : present) : bool :=
+  cred_honest (pc_cx c) (pc_link c) (pr_cred p) && is_none (hc_revreg (pr_cred p))
+  && forallb (fun '(r, b) => (b : bool) || match assoc r (rq_attrs (pc_req c)) with
+                                           | Some ai => forallb (fun n => mem (cv n) (keys (fed_legacy (pr_cred p)))) (names_of ai)
+                                           | None => true end) (pr_attrs p)
+  && forallb (fun '(_, (_, e)) => String.eqb (normalize_encoded e) e) (hc_values (pr_cred p)).
+Definition plain_b (c : pcase) : bool :=
+  coverage c
+  && forallb (plain_entry c) (nonempty (pc_sel c))
+  && forallb (fun '(_, ai) => is_none (ai_restr ai) && is_none (ai_nr ai) && match ai_names ai with Some ns => nodup_str ns | None => true end) (rq_attrs (pc_req c))
+  && forallb (fun '(_, pi) => is_none (pi_restr pi) && is_none (pi_nr pi)) (rq_preds (pc_req c))
+  && is_none (rq_nr (pc_req c))
+  && is_ok (build_regmap (pc_cx c)).
+
